@@ -14,8 +14,10 @@ import (
 	"fmt"
 	"math/rand"
 	"os"
+	"reflect"
 	"runtime"
 	"sort"
+	"strconv"
 	"sync"
 	"sync/atomic"
 	"time"
@@ -175,11 +177,22 @@ func setup(tab0, ptab Tab) *world {
 		w.parent.Define(k, int64(ptab.V[i]))
 	}
 	w.child = w.parent.NewEnv()
+	w.child.SetExternalLookup(extLookup{}) // knows the value name "ext"; consulted after the scope's own table
 	for i, k := range tab0.K {
 		w.child.Define(k, int64(tab0.V[i]))
 	}
 	return w
 }
+
+type extLookup struct{}
+
+func (extLookup) Get(name string) (reflect.Value, error) {
+	if name == "ext" {
+		return reflect.ValueOf(int64(77)), nil
+	}
+	return reflect.Value{}, fmt.Errorf("unknown")
+}
+func (extLookup) Type(name string) (reflect.Type, error) { return nil, fmt.Errorf("unknown") }
 
 func errRes(err error) Res {
 	if err != nil {
@@ -557,6 +570,34 @@ func main() {
 			}
 		}
 		f.Close()
+	case "chain3":
+		// race-detector stress beyond the two-scope model: a chain root <- mid <- leaf where every scope is read and written concurrently
+		// through every operation that walks the chain (each scope's table must only ever be touched under that scope's own lock)
+		rounds, _ := strconv.Atoi(os.Args[2])
+		for r := 0; r < rounds; r++ {
+			root := env.NewEnv()
+			mid := root.NewEnv()
+			leaf := mid.NewEnv()
+			root.Define("r", int64(1))
+			var wg sync.WaitGroup
+			work := []func(){
+				func() { leaf.DeleteGlobal("z"); leaf.DeleteGlobal("r") },
+				func() { mid.Define("z", int64(r)); mid.Delete("z") },
+				func() { leaf.Get("z"); leaf.Get("r") },
+				func() { leaf.Set("z", int64(2)); leaf.Set("r", int64(3)) },
+				func() { leaf.Addr("z"); leaf.GetValueSymbols(); mid.GetValueSymbols() },
+				func() { root.Define("r", int64(4)); root.Define("q", int64(5)); root.Delete("q") },
+				func() { leaf.DeepCopy(); mid.Copy() },
+				func() { leaf.DefineGlobal("g", int64(6)); leaf.Get("g") },
+			}
+			for _, f := range work {
+				f := f
+				wg.Add(1)
+				go func() { defer wg.Done(); f(); runtime.Gosched(); f() }()
+			}
+			wg.Wait()
+		}
+		fmt.Println("chain3 rounds", rounds)
 	case "sched":
 		var c struct {
 			Progs [][]Op `json:"progs"`
